@@ -31,8 +31,9 @@ import (
 // A case = everything needed to execute once on either side.
 
 type extraAcct struct {
-	Addr string `json:"addr"`
-	Code string `json:"code"`
+	Addr    string      `json:"addr"`
+	Code    string      `json:"code"`
+	Storage [][2]string `json:"storage,omitempty"`
 }
 
 type Case struct {
@@ -73,7 +74,11 @@ func (p *prog) toCase(iset int) Case {
 	c := Case{Family: p.family, Name: p.name, ISet: iset, NilChainID: p.nilChainID, Create: p.create, Code: fmt.Sprintf("%x", p.code), Input: fmt.Sprintf("%x", p.input), Gas: p.gas,
 		Value: p.value, PreludeEnd: p.preludeEnd, StepBound: p.stepBound, Expect: p.expect}
 	for _, e := range p.extra {
-		c.Extra = append(c.Extra, extraAcct{fmt.Sprintf("%x", e.addr[:]), fmt.Sprintf("%x", e.code)})
+		ea := extraAcct{Addr: fmt.Sprintf("%x", e.addr[:]), Code: fmt.Sprintf("%x", e.code)}
+		for _, kv := range e.storage {
+			ea.Storage = append(ea.Storage, [2]string{fmt.Sprintf("%x", kv[0][:]), fmt.Sprintf("%x", kv[1][:])})
+		}
+		c.Extra = append(c.Extra, ea)
 	}
 	return c
 }
@@ -545,6 +550,9 @@ func runKVM(w *kworld, p *prog, iset int, count *[256]uint64) (out outcome) {
 			s.SetNonce(ka, 1)
 			s.SetBalance(ka, new(big.Int).SetUint64(e.balance))
 			s.SetCode(ka, e.code)
+			for _, kv := range e.storage {
+				s.SetState(ka, kcommon.Hash(kv[0]), kcommon.Hash(kv[1]))
+			}
 		}
 		if !p.create {
 			s.SetCode(kcommon.Address(addrMain), p.code)
@@ -877,6 +885,9 @@ func runRef(w *gworld, p *prog, iset int, count *[256]uint64) (out outcome) {
 		s.SetNonce(ga, 1)
 		s.SetBalance(ga, new(big.Int).SetUint64(e.balance))
 		s.SetCode(ga, e.code)
+		for _, kv := range e.storage {
+			s.SetState(ga, gcommon.Hash(kv[0]), gcommon.Hash(kv[1]))
+		}
 	}
 	main := gcommon.Address(addrMain)
 	if !p.create {
